@@ -3,13 +3,16 @@
    from a pool of 6 named rows, flat or two-axis batch arrangement, a presentation lacking a variable). *)
 EXTENDS Models, TLC, Json, IOUtils, SequencesExt
 CONSTANTS NPres
-X == <<"x", 2>>  T == <<"t", 1>>  K == <<"k", 1>>  U == <<"u", 1>>  V == <<"v", 2>>  W == <<"w", 2>>
+X == <<"x", 2>>  T == <<"t", 1>>  K == <<"k", 1>>  Z == <<"z", 1>>  U == <<"u", 1>>  V == <<"v", 2>>  W == <<"w", 2>>
 Leaf(kind, ins, out) == [k |-> "leaf", kind |-> kind, ins |-> ins, out |-> out, ms |-> <<>>]
 Seqm(ms) == [k |-> "seq", kind |-> "", ins |-> <<>>, out |-> <<>>, ms |-> ms]
 Parm(ms) == [k |-> "par", kind |-> "", ins |-> <<>>, out |-> <<>>, ms |-> ms]
 Kinds == {"fcn", "harmonic", "poly", "qres", "deepritz"}
 Leaves == {Leaf(kd, ins, <<U>>) : kd \in Kinds, ins \in {<<X, T>>, <<T, X>>, <<X, T, K>>, <<K, X>>}}
-Models == Leaves
+\* four input variables (orderings that keep the first and the last column in place), residual polynomial networks
+Leaves4 == {Leaf(kd, <<K, X, T, Z>>, <<U>>) : kd \in {"fcn", "qres"}} \cup {Leaf(kd, <<X, T>>, <<U>>) : kd \in {"polyres", "polyres3"}}
+           \cup {Parm(<<Leaf("fcn", <<X, K, Z>>, <<U>>), Leaf("fcn", <<Z, T, X>>, <<V>>)>>)}
+Models == Leaves \cup Leaves4
     \cup {Seqm(<<Leaf("norm", <<X>>, <<X>>), Leaf(kd, <<X>>, <<U>>)>>) : kd \in {"fcn", "harmonic"}}
     \cup {Seqm(<<Leaf(k1, <<X, T>>, <<W>>), Leaf(k2, <<W>>, <<U>>)>>) : k1 \in {"fcn", "qres"}, k2 \in {"fcn", "deepritz", "poly"}}
     \cup {Parm(<<Leaf(k1, <<X, T>>, <<U>>), Leaf(k2, <<T, K>>, <<V>>)>>) : k1 \in {"fcn", "qres", "poly"}, k2 \in {"fcn", "harmonic"}}
